@@ -354,6 +354,10 @@ func (v *Validator) DecodeRLP(s *rlp.Stream) error {
 	if err := s.Decode(&r); err != nil {
 		return err
 	}
+	if r.Expelled > 1 {
+		// EncodeRLP writes only 0 or 1
+		return fmt.Errorf("rlp: invalid expelled flag %d for state.Validator", r.Expelled)
+	}
 
 	v.Name = r.Name
 	v.OperatorAddress = r.OperatorAddress
